@@ -2,6 +2,7 @@
 
 pub mod c09;
 pub mod certs;
+pub mod chains;
 pub mod crls;
 pub mod csrs;
 pub mod imports;
@@ -32,6 +33,16 @@ pub fn dispatch(ctx: &Ctx, _extra: &[String]) -> (String, String) {
 			(
 				"case = one edit history (sequence of push/remove); exhaustive histories are enumerated (distinct by construction) and additionally the distinct reached states (hash of the model enumeration) are counted; a history is non-trivial when it has at least one operation".into(),
 				"all histories up to the stated length over 12 operations".into(),
+			)
+		},
+		#[cfg(all(feature = "crypto", feature = "ossl"))]
+		"C12" => {
+			use crate::keys::{build_pool, PoolSize};
+			let pool = build_pool(PoolSize::Small);
+			chains::run(ctx, &pool);
+			(
+				"case = one chain root -> [intermediates] -> leaf with one constraint dimension varied around a valid base chain (directed cases, enumerated, each distinct) or several dimensions varied at random (by hash); judged by OpenSSL X509_verify_cert and webpki verify_for_usage".into(),
+				"directed: CA flag variants x position, path length {none,0,1,2} x position x depth 0..3, 7 verification times x 3 windows, DNS constraints x 7 leaf names x permitted/excluded x 2 positions, IPv4 prefixes {0,1,8,23,24,25,31,32} and IPv6 {0,1,64,65,127,128} x boundary addresses, 8 EKU sets x 2 purposes, 10 CA key-usage sets x 2 positions".into(),
 			)
 		},
 		#[cfg(all(feature = "crypto", feature = "ossl"))]
